@@ -58,6 +58,7 @@ type vJob struct {
 	replaced         bool
 	taskErrored      bool
 	graphChecked     bool
+	taskCanceledReported bool
 }
 
 type vCancelGo struct {
@@ -91,6 +92,7 @@ var vTaskErr = errors.New("task failed: exit status 1")
 type vRunner struct {
 	job          *PipelineJob
 	onTaskChange func(t *task.Task)
+	cancelled    bool
 }
 
 func (m *vRunner) SetOnTaskChange(f func(t *task.Task)) { m.onTaskChange = f }
@@ -99,6 +101,7 @@ func (m *vRunner) Run(t *task.Task) error {
 	return nil
 }
 func (m *vRunner) Cancel() {
+	m.cancelled = true
 	if vj := vW.byJob(m.job); vj != nil {
 		vj.cancelDelivered = true
 	}
@@ -178,6 +181,7 @@ func vTasks(gen int) map[string]definition.TaskDef {
 		return map[string]definition.TaskDef{
 			"a": {Script: []string{"echo a0"}},
 			"b": {Script: []string{"echo b0"}, DependsOn: []string{"a"}, Env: map[string]string{"T": "b0"}},
+			"c": {Script: []string{"echo c0"}},
 		}
 	default:
 		// a reload rewires, adds and changes tasks
@@ -343,6 +347,9 @@ func (w *vWorld) enabled(maxJobs, maxReloads int) []vEvent {
 				evs = append(evs, vEvent{kind: 3, idx: i, sub: 0})
 				if vj.cancelDelivered {
 					evs = append(evs, vEvent{kind: 3, idx: i, sub: 1})
+					if !vj.taskCanceledReported && verifBound("taskcancel", 1) == 1 {
+						evs = append(evs, vEvent{kind: 9, idx: i})
+					}
 				}
 				if verifBound("taskerr", 1) == 1 {
 					evs = append(evs, vEvent{kind: 6, idx: i})
@@ -455,6 +462,12 @@ func (w *vWorld) doSchedule(reserved bool) {
 		vj.timer = w.timers[len(w.timers)-1]
 		vj.timer.job = vj
 		verifAssert(len(w.timers) == nTimers+1, "C07.one-timer-per-job")
+	}
+	// a job accepted with a start delay gets a wake-up at acceptance + delay (and only then):
+	// without it, it would either wait for an unrelated event or start as soon as a slot is free
+	verifAssert(verifImplies(def.StartDelay > 0, vj.timer != nil), "C07.delayed-job-has-a-timer")
+	if vj.timer != nil {
+		verifAssert(vj.timer.deadline >= acceptT+int64(def.StartDelay), "C07.timer-not-before-delay")
 	}
 	w.scanSpawned()
 	switch expect {
@@ -576,6 +589,23 @@ func (w *vWorld) doTaskErr(vj *vJob) {
 		jt := j.Tasks.ByName(t.Name)
 		verifAssert(jt != nil && jt.Errored && jt.Error != nil, "C08.task-failure-recorded")
 	})
+}
+
+// doTaskCanceled: one task of a job whose stop was delivered reports context.Canceled while the
+// scheduler (and possibly sibling tasks) are still running.
+func (w *vWorld) doTaskCanceled(vj *vJob) {
+	t := task.FromCommands("echo")
+	t.Name = vj.job.Tasks[0].Name
+	t.Variables = variables.FromMap(map[string]string{taskctl.JobIDVariableName: vj.id.String()})
+	t.Start = time.Now()
+	t.Errored = true
+	t.Error = context.Canceled
+	verifEvent("TASKCANCELED " + vj.name)
+	nSpawned := verifSpawnedCount()
+	w.r.HandleTaskChange(t)
+	w.scanSpawned()
+	vj.taskCanceledReported = true
+	verifAssert(verifSpawnedCount() == nSpawned, "C04.canceled-task-report-starts-nothing")
 }
 
 func (w *vWorld) doTimer(vt *vTimer) {
@@ -737,6 +767,37 @@ func (w *vWorld) afterEvent() {
 	li := w.listed()
 	verifAssert(li.Running == (running > 0), "C15.running-flag")
 
+	// C03/C06 (representation): the wait list holds exactly the live waiting jobs, in acceptance order.
+	// A job that waits but is not on the list can never be dequeued; a list out of acceptance order
+	// starts jobs out of order (the dequeue pops the front).
+	if defined && !w.r.isShuttingDown {
+		wl := w.r.waitListByPipeline[vP]
+		lastSeq := -1
+		inOrder := true
+		for _, j := range wl {
+			vj := w.byJob(j)
+			if vj == nil {
+				continue
+			}
+			if vj.seq < lastSeq {
+				inOrder = false
+			}
+			lastSeq = vj.seq
+		}
+		if w.reloads == 0 {
+			verifAssert(inOrder, "C06.queue-keeps-acceptance-order")
+		}
+		for _, vj := range w.waitingJobs() {
+			on := false
+			for _, j := range wl {
+				if j == vj.job {
+					on = true
+				}
+			}
+			verifAssert(on, "C03.waiting-job-is-on-the-wait-list")
+		}
+	}
+
 	// C03: stuck-freedom. The oldest live waiting job must have something pending that will start it.
 	waiting := w.waitingJobs()
 	if len(waiting) > 0 && defined && !w.r.isShuttingDown {
@@ -796,6 +857,8 @@ func VerifBMC() {
 			verifEvent("GO other")
 			verifRunSpawned(c.idx)
 			w.scanSpawned()
+		case 9:
+			w.doTaskCanceled(w.jobs[ev.idx])
 		}
 		w.afterEvent()
 	}
